@@ -985,6 +985,213 @@ def d_check(e, rho_py, item, mout):
 
 
 # ---------------------------------------------------------------------------------------------
+# part E: literal-versus-variable transparency at STATEMENT level.  A template is a list of
+# segments: source text and ("E", expression) holes; the literal form prints the holes as written,
+# a hoisted form replaces a subset of their literal atoms by context variables.
+# part F: the same call site evaluated repeatedly with literal vs hoisted keyword arguments.
+# ---------------------------------------------------------------------------------------------
+def seg_src(segs):
+    return "".join(x if isinstance(x, str) else src(x[1]) for x in segs)
+
+
+def seg_atoms(segs):
+    return sum(count_atoms(x[1]) for x in segs if not isinstance(x, str))
+
+
+def seg_hoist(segs, subset):
+    exprs = [x[1] for x in segs if not isinstance(x, str)]
+    wrapped, ctx = hoist_atoms(("list", exprs), subset)
+    it = iter(wrapped[1])
+    return [x if isinstance(x, str) else ("E", next(it)) for x in segs], ctx
+
+
+def seg_variants(segs):
+    k = seg_atoms(segs)
+    if k <= 6:
+        subsets = [set(s) for n in range(1, k + 1) for s in itertools.combinations(range(k), n)]
+    else:
+        subsets = [{i} for i in range(k)] + [set(range(k))] + [set(range(0, k, 2))]
+    out = [("literal", segs, {})]
+    for s in subsets:
+        s2, ctx = seg_hoist(segs, s)
+        out.append(("atoms:" + ",".join(map(str, sorted(s))), s2, ctx))
+    return out
+
+
+E_TEMPLATES = {"base": "<{% block title %}base title{% endblock %}|{% block body %}base body{% endblock %}>",
+               "inc": "(inc:{{ iv }})", "lib": "{% macro f(x=1) %}F{{ x }}{% endmacro %}"}
+E_CTX = {"iv": {"t": "int", "v": "7"}}
+_I = lambda n: ("int", n)
+_S = lambda x: ("str", x)
+COND_POOL = [("bool", True), ("bool", False), _I(0), _I(1), _S(""), _S("a"), ("list", []), ("list", [_I(0)]), ("none",), ("map", []), ("tuple", []),
+             ("cmp", _I(1), [("<", _I(2)), ("<", _I(3))]), ("cmp", _I(3), [("<", _I(2)), ("<", _I(3))]), ("not", ("list", [])), ("and", _I(0), _I(1)),
+             ("or", _S(""), _I(2)), ("cmp", _I(1), [("==", _I(2))]), ("neg", _I(0)), ("float", f2b(0.0)), ("bin", "-", _I(1), _I(1)), ("cmp", _S("a"), [("in", _S("abc"))])]
+
+
+class GenS:
+    def __init__(self, rng):
+        self.r = rng
+        self.n = 0
+        self.uses = []
+        self.free_base_blocks = []
+
+    def fresh(self, p):
+        self.n += 1
+        return "%s%d" % (p, self.n)
+
+    def cond(self):
+        return ("E", self.r.choice(COND_POOL))
+
+    def val(self):
+        r = self.r
+        c = r.below(6)
+        if c == 0: return ("E", _I(r.choice([0, 1, 2, 42])))
+        if c == 1: return ("E", _S(r.choice(["", "a", "<b>", "x y"])))
+        if c == 2: return ("E", ("bool", r.chance(1, 2)))
+        if c == 3: return ("E", ("none",))
+        if c == 4: return ("E", ("list", [_I(1), _S("a")]))
+        return ("E", ("bin", "+", _I(1), _I(r.choice([1, 2]))))
+
+    def decl(self, allow_block):
+        r = self.r
+        c = r.below(8)
+        if c <= 2 and allow_block:
+            if self.free_base_blocks and r.chance(1, 2):
+                name = self.free_base_blocks.pop()
+            else:
+                name = self.fresh("b")
+            self.uses.append("[{{ self." + name + "() }}]")
+            return ["{% block " + name + " %}B-" + name, "{{ ", self.val(), " }}{% endblock %}"]
+        if c == 3:
+            name = self.fresh("m")
+            self.uses.append("[{{ " + name + "() if " + name + " is defined else '-' }}]")
+            return ["{% macro " + name + "(a=", self.val(), ") %}M{{ a }}{% endmacro %}"]
+        if c == 4:
+            name = self.fresh("s")
+            self.uses.append("[{{ " + name + " if " + name + " is defined else '-' }}]")
+            return ["{% set " + name + " = ", self.val(), " %}"]
+        if c == 5:
+            name = self.fresh("l")
+            self.uses.append("[{{ " + name + ".f(2) if " + name + " is defined else '-' }}]")
+            return ["{% import ", ("E", _S("lib" if r.chance(15, 16) else "missing")), " as " + name + " %}"]
+        if c == 6:
+            name = self.fresh("f")
+            self.uses.append("[{{ " + name + "(3) if " + name + " is defined else '-' }}]")
+            return ["{% from ", ("E", _S("lib")), " import f as " + name + " %}"]
+        tgt = r.choice([_S("inc"), _S("inc"), ("list", [_S("missing"), _S("inc")]), _S("missing")])
+        return ["{% include ", ("E", tgt), " ignore missing %}" if tgt == _S("missing") and r.chance(7, 8) or r.chance(1, 3) else " %}"]
+
+    def body(self, d, allow_block=True):
+        out = []
+        for _ in range(1 + self.r.below(3)):
+            c = self.r.below(4)
+            if c == 0: out += [self.fresh("t")]
+            elif c <= 2 or d <= 0: out += self.decl(allow_block)
+            else: out += self.stmt(d - 1, allow_block)
+        return out
+
+    def stmt(self, d, allow_block=True):
+        r = self.r
+        c = r.below(10)
+        if c <= 3:
+            out = ["{% if ", self.cond(), " %}"] + self.body(d, allow_block)
+            if r.chance(1, 3): out += ["{% elif ", self.cond(), " %}"] + self.body(d, allow_block)
+            if r.chance(1, 2): out += ["{% else %}"] + self.body(d, allow_block)
+            return out + ["{% endif %}"]
+        if c == 4:
+            it = r.choice([("list", [_I(1), _I(2)]), ("list", []), _S("ab"), ("tuple", [_I(1)]), ("list", [_I(1), _I(2)]), ("list", []), ("map", [(_S("k"), _I(1))]), ("none",),
+                           _I(5) if r.chance(1, 4) else ("list", [_I(3)])])
+            out = ["{% for x in ", ("E", it), " %}<{{ x }}>"] + self.body(d, allow_block)
+            if r.chance(1, 2): out += ["{% else %}"] + self.body(d, allow_block)
+            return out + ["{% endfor %}"]
+        if c == 5:
+            return ["{% with a = ", self.val(), " %}{{ a }}"] + self.body(d, allow_block) + ["{% endwith %}"]
+        if c == 6:
+            v = r.choice([("bool", True), ("bool", False), _S("html"), _S("none"), _S("bogus") if r.chance(1, 4) else _S("html"), _I(1), ("none",)])
+            return ["{% autoescape ", ("E", v), " %}{{ ", ("E", _S("<b>")), " }}"] + self.body(d, allow_block) + ["{% endautoescape %}"]
+        if c == 7:
+            return ["{% filter replace(", ("E", _S(r.choice(["B", "t", "-"]))), ", ", ("E", _S(r.choice(["X", ""]))), ") %}"] + self.body(d, allow_block) + ["{% endfilter %}"]
+        if c == 8:
+            w = self.fresh("w")
+            return ["{% macro " + w + "(p) %}<{{ p }}{{ caller() }}>{% endmacro %}{% call " + w + "(", self.val(), ") %}"] + self.body(d, False) + ["{% endcall %}"]
+        return self.decl(allow_block)
+
+    def template(self):
+        r = self.r
+        if r.chance(1, 3):
+            # a child template: what it declares at top level (blocks, also inside branches) is what counts
+            self.free_base_blocks = ["body", "title"]
+            head = ["{% extends ", ("E", _S("base" if r.chance(29, 30) else "missing")), " %}"]
+            segs = head + self.stmt(2) + self.body(1)
+            if "body" in self.free_base_blocks:
+                segs += ["{% block body %}"] + self.uses + ["{% endblock %}"]
+            return segs
+        segs = self.stmt(2) + self.body(1)
+        return segs + self.uses
+
+
+# ---- part F: call sites ----
+F_CTX = {"txt": {"t": "str", "v": "a\nb"}, "cm": {"t": "map", "v": [[{"t": "str", "v": "b"}, {"t": "int", "v": "1"}], [{"t": "str", "v": "A"}, {"t": "int", "v": "2"}]]},
+         "cl": {"t": "list", "v": [{"t": "str", "v": "b"}, {"t": "str", "v": "A"}, {"t": "str", "v": "a"}]},
+         "cl2": {"t": "list", "v": [{"t": "map", "v": [[{"t": "str", "v": "a"}, {"t": "int", "v": "1"}]]}, {"t": "map", "v": [[{"t": "str", "v": "a"}, {"t": "int", "v": "2"}]]},
+                                     {"t": "map", "v": [[{"t": "str", "v": "b"}, {"t": "int", "v": "3"}]]}]}}
+_W = ("var", "w")
+_T, _F, _N = ("bool", True), ("bool", False), ("none",)
+
+
+def f_sites():
+    """(name, builder(kwargs) -> call expression using the selector variable w, keyword candidates, selector sequences)"""
+    flt = lambda name, recv, pos: (lambda kw: ("filter", name, recv, list(pos), kw))
+    fn = lambda name, pos: (lambda kw: ("call", name, list(pos), kw))
+    sel_w = [[None, 3], [3, None], [None, None, 3], [3, 3]]
+    sel_b = [[True, False], [False, True], [True, True, False]]
+    sel_1 = [[1, 1], [1, 1, 1]]
+    return [
+        ("indent", flt("indent", ("var", "txt"), [_W]), [("width", _I(2)), ("first", _T), ("blank", _T), ("zz", _I(1))], sel_w),
+        ("indent2", flt("indent", ("var", "txt"), [_I(1), _W]), [("first", _T), ("width", _I(2)), ("blank", _F)], sel_b + [[None, True]]),
+        ("tojson", flt("tojson", ("var", "cm"), [_W]), [("indent", _I(2)), ("zz", _I(1))], [[None, 1], [1, None], [None, True, None]]),
+        ("groupby", lambda kw: ("filter", "list", ("filter", "groupby", ("var", "cl2"), [_W], kw), [], []),
+         [("attribute", _S("a")), ("default", _I(0)), ("case_sensitive", _T), ("zz", _I(1))], [[None, "a"], ["a", None], ["b", None, "a"]]),
+        ("dictsort", flt("dictsort", ("var", "cm"), []), [("by", _S("value")), ("case_sensitive", _T), ("reverse", _T), ("zz", _I(1))], sel_1),
+        ("sort", flt("sort", ("var", "cl"), []), [("reverse", _T), ("case_sensitive", _T), ("zz", _I(1))], sel_1),
+        ("sort_attr", flt("sort", ("var", "cl2"), []), [("attribute", _S("a")), ("reverse", _T)], sel_1),
+        ("unique", flt("unique", ("var", "cl"), []), [("case_sensitive", _T), ("attribute", _S("x")), ("zz", _I(1))], sel_1),
+        ("map", lambda kw: ("filter", "list", ("filter", "map", ("var", "cl2"), [], kw), [], []), [("attribute", _S("a")), ("default", _I(0)), ("zz", _I(1))], sel_1),
+        ("format", flt("format", _S("%(x)s-%(y)s"), []), [("x", _I(1)), ("y", _S("q")), ("zz", _I(1))], sel_1),
+        ("dict", fn("dict", []), [("a", _I(1)), ("b", _S("x")), ("a", _I(3))], sel_1),
+        ("dict_w", fn("dict", [("var", "cm")]), [("b", _I(5)), ("k", _N)], sel_1),
+        ("namespace", lambda kw: ("item", ("call", "namespace", [], kw), _S("a")), [("a", _I(1)), ("b", _I(2))], sel_1),
+        ("cshow", fn("cshow", [_W]), [("unit", _S("kg")), ("zz", _I(1))], sel_w),
+        ("ckw", flt("ckw", _I(9), [_W]), [("a", _I(1)), ("b", _I(2)), ("zz", _I(1))], sel_b + [[False, False, True]]),
+        ("macro", fn("mk", [_W]), [("a", _I(1)), ("b", _S("x")), ("zz", _I(1))], sel_w),
+        ("cargs", fn("cargs", [_W]), [("a", _I(1)), ("b", _N)], sel_w),
+    ]
+
+
+F_MACRO = "{% macro mk(p, a=0, b=0) %}<{{ p }}|{{ a }}|{{ b }}>{% endmacro %}"
+
+
+def f_lit(v):
+    return ("none",) if v is None else ("bool", v) if isinstance(v, bool) else ("int", v) if isinstance(v, int) else ("str", v)
+
+
+def f_templates(call, seq):
+    """the three ways the same call site runs more than once: [(mode, segments, contexts)]"""
+    e = ("E", call)
+    ws = {"t": "list", "v": [tv_py(v) for v in seq]}
+    calls = "".join("{{ rr(" + src(f_lit(v)) + ") }}" for v in seq)
+    return [("loop", [F_MACRO + "{% for w in ws %}[{{ ", e, " }}]{% endfor %}"], [{"ws": ws}]),
+            ("renders", [F_MACRO + "[{{ ", e, " }}]"], [{"w": tv_py(v)} for v in seq]),
+            ("macro", [F_MACRO + "{% macro rr(w) %}[{{ ", e, " }}]{% endmacro %}" + calls], [{}])]
+
+
+def multi_obs(it):
+    if it is None or "renders" not in it:
+        return ("crash", json.dumps(it, sort_keys=True)[:200])
+    return (json.dumps(it.get("load"), sort_keys=True), json.dumps(it.get("renders"), sort_keys=True))
+
+
+# ---------------------------------------------------------------------------------------------
 # running the harness (several processes)
 # ---------------------------------------------------------------------------------------------
 def run_c04(reqs, release=False, workers=12):
@@ -1161,6 +1368,8 @@ def main():
     chk.assumptions = [
         "part A: expressions over the literal syntax (unary, + - * / // % **, ~, comparison chains, and/or/not, in / not in, lists, tuples, maps, negated literals, if-expressions, subscripts, slices, filters and functions with literal keyword arguments, macro calls with keyword arguments, tests); ints from a boundary pool up to 2^128-1, floats by bit pattern (no NaN/inf literals exist), short strings; <= 6 literals: every subset hoisted; 4 undefined behaviours",
         "part D: collection literals (lists, tuples, maps with int/str/bool/none keys incl. duplicates) and calls of two probe callables (function `cargs`, filter `cfilt`: they return what they were given) with positional, keyword, `*x` and `**m` arguments, duplicate keywords, literal and hoisted values; BTreeMap build of the engine (no preserve_order)",
+        "part E: templates whose STATEMENTS carry the constants - if / elif / for / with / set / autoescape / include / extends / import / from-import / filter-block arguments / macro defaults / call blocks -, with declarations of template-wide effect (blocks used through self.name() or inheritance, macros, set, imports) in taken and untaken branches; one environment with a base, an included and an imported template; literal form against every hoisted subset (<= 6 literals), lenient / strict / chainable",
+        "part F: every builtin callable that takes keyword arguments (indent, tojson, groupby, dictsort, sort, unique, map, format, dict, namespace), macros and probe callables that consume keywords conditionally and call assert_all_used; subsets of their keywords incl. unexpected and duplicate ones; the call site runs 2-3 times (loop, macro called repeatedly, one template rendered repeatedly on one environment) with different positional selectors; literal keywords against every hoisted subset",
         "part C: core fragment of Lang/Interp.v (unbounded ints represented up to i128, ASCII strings, bools, none, lists, maps with scalar keys - literals with constant / computed / duplicate keys, a map variable, `in`, ==, subscripts, length, truthiness -, ==/!= chains across bool/int; typed so that operators meet the operand kinds the reference evaluator models)",
         "a value is 'the same' when it is built from the literal's text exactly like the parser's constant (u64 if it fits, else u128; negated units: i64 if it fits, else i128)"]
     okm, blog = build_models("C04")
@@ -1551,16 +1760,103 @@ def main():
             rep["theorem_or_correspondence"] = "C04/Coll.v (as_const of List/Tuple/Map, compile_call_args, Build*/MergeKwargs/UnpackLists) vs ast.rs / codegen.rs / vm"
             chk.violation("model and engine disagree on a collection literal or a call's arguments", rep, True)
 
+    # ---------------- parts E and F -------------------------------------------------------------
+    def run_multi(cases, what_e, kind):
+        """cases: [(label, segments, base templates, contexts, undefined mode, ast tag)];  literal vs every hoisted form"""
+        reqs, meta = [], []
+        for label, segs, tmpls, ctxs, md, tag in cases:
+            vs = seg_variants(segs)
+            items = []
+            for _, s2, hctx in vs:
+                t = dict(tmpls)
+                t["main"] = seg_src(s2)
+                items.append({"templates": t, "main": "main", "ctxs": [dict(c, **hctx) for c in ctxs]})
+            reqs.append({"undefined": md, "items": items})
+            meta.append((label, segs, vs, md, tag))
+        nbad, nvar = 0, sum(len(m[2]) for m in meta)
+        reported = 0
+        for rel in (False, True):
+            resp = run_c04_robust(reqs, release=rel)
+            for (label, segs, vs, md, tag), rq, r in zip(meta, reqs, resp):
+                items = (r or {}).get("items") or []
+                if len(items) != len(vs):
+                    continue
+                o0 = multi_obs(items[0])
+                diff = [i for i in range(1, len(vs)) if multi_obs(items[i]) != o0]
+                if not rel:
+                    hist[kind + "_" + ("ok" if all("ok" in x for x in (items[0].get("renders") or [{}])) else "err")] += 1
+                if diff:
+                    nbad += 1
+                    if reported < 3:
+                        reported += 1
+                        i = min(diff, key=lambda j: len(vs[j][0]))
+                        chk.violation(what_e, {"template_literal": rq["items"][0]["templates"]["main"], "template_hoisted": rq["items"][i]["templates"]["main"],
+                                               "other_templates": {k: v for k, v in rq["items"][0]["templates"].items() if k != "main"},
+                                               "contexts_hoisted": rq["items"][i]["ctxs"], "undefined": md, "variant": vs[i][0], "profile": "release" if rel else "debug",
+                                               "literal_form": {"load": items[0].get("load"), "renders": items[0].get("renders")},
+                                               "hoisted_form": {"load": items[i].get("load"), "renders": items[i].get("renders")},
+                                               "case": label, tag: repr((segs, rq["items"][0]["ctxs"]))})
+        return nbad, nvar
+
+    ecases = []
+    if chk.replay:
+        rp = json.load(open(chk.replay))["replay"]
+        if "stmt_case" in rp:
+            segs, ctxs = eval(rp["stmt_case"])
+            ecases.append(("replay", segs, dict(E_TEMPLATES), ctxs, rp.get("undefined", "lenient"), "stmt_case"))
+    else:
+        ne = 12000 if chk.thorough else 900
+        E = lambda x: ("E", x)
+        for segs in [["{% if ", E(("bool", False)), " %}{% block note %}NOTE{% endblock %}{% endif %}[{{ self.note() }}]"],
+                     ["{% if ", E(("bool", True)), " %}x{% else %}{% block n2 %}N2{% endblock %}{% endif %}[{{ self.n2() }}]"],
+                     ["{% extends ", E(("str", "base")), " %}{% if ", E(("bool", False)), " %}{% block title %}child title{% endblock %}{% endif %}"],
+                     ["{% if ", E(("int", 0)), " %}{% macro q() %}Q{% endmacro %}{% endif %}[{{ q() }}]"],
+                     ["{% for x in ", E(("list", [])), " %}{% block lb %}LB{% endblock %}{% endfor %}[{{ self.lb() }}]"],
+                     ["{% autoescape ", E(("str", "html")), " %}{{ ", E(("str", "<b>")), " }}{% endautoescape %}"],
+                     ["{% include ", E(("list", [("str", "missing"), ("str", "inc")])), " %}"]]:
+            ecases.append(("seed", segs, dict(E_TEMPLATES), [dict(E_CTX)], "lenient", "stmt_case"))
+        tries = 0
+        while len(ecases) < ne and tries < 20 * ne:
+            tries += 1
+            segs = GenS(chk.rng).template()
+            k = seg_atoms(segs)
+            if k == 0 or k > 9:
+                continue
+            ecases.append(("gen", segs, dict(E_TEMPLATES), [dict(E_CTX)], chk.rng.choice(["lenient", "lenient", "strict", "chainable"]), "stmt_case"))
+    bad_e, nvar_e = run_multi(ecases, "literal and variable forms of a statement-level constant behave differently", "partE")
+
+    fcases = []
+    if chk.replay:
+        rp = json.load(open(chk.replay))["replay"]
+        if "repeat_case" in rp:
+            segs, ctxs = eval(rp["repeat_case"])
+            fcases.append(("replay", segs, {}, ctxs, rp.get("undefined", "lenient"), "repeat_case"))
+    else:
+        for name, build, cands, seqs in f_sites():
+            subsets = [c for n in range(1, len(cands) + 1) for c in itertools.combinations(range(len(cands)), n)]
+            if not chk.thorough and len(subsets) > 8:
+                subsets = [subsets[i] for i in sorted(set([0, len(subsets) - 1] + [chk.rng.below(len(subsets)) for _ in range(7)]))]
+            for sub in subsets:
+                kw = [cands[i] for i in sub]
+                call = build(kw)
+                if count_atoms(call) > 6:
+                    continue
+                for seq in (seqs if chk.thorough else seqs[:3]):
+                    for mode, segs, ctxs in f_templates(call, seq):
+                        fcases.append((name + ":" + mode, segs, {}, [dict(F_CTX, **c) for c in ctxs], "lenient", "repeat_case"))
+    bad_f, nvar_f = run_multi(fcases, "a call site that runs more than once treats literal keyword arguments differently from the same values in variables", "partF")
+
     if bad_sub and not chk.violations:
         i, rel, s_, ops, ms = min(bad_sub, key=lambda b: len(b[2]))
         chk.violation("the engine folds sub-expressions differently from the model (fold_sub)",
                       {"theorem_or_correspondence": "C04/Model.v::fold_sub vs codegen.rs::compile_expr (recursive as_const)", "template": "{{ " + s_ + " }}",
                        "engine_ops": ops, "model_loadconst_lookup": ms, "profile": "release" if rel else "debug", "lang_ast": repr(lexprs[i][0])}, True)
-    chk.cov["evaluations"] = 2 * (nvariants + 2 * len(lexprs) + len(dmeta)) + nb
+    chk.cov["evaluations"] = 2 * (nvariants + 2 * len(lexprs) + len(dmeta) + nvar_e + nvar_f) + nb
     chk.cov["distinct_nontrivial"] = len(nontriv)
     chk.cov["rule"] = ("part A: generated expressions x EVERY subset of their literal positions hoisted into typed context variables (+ whole literal units), each variant loaded, rendered as `{{ E }}` and `{{ [E] }}` and evaluated through compile_expression, debug and release; "
                        "non-trivial = distinct (expression, undefined behaviour) with >= 2 literals and >= 4 variants whose literal form loads; "
                        "part B: failing constant expressions x 9 never-executed + 7 executed positions; part C: core-fragment expressions, engine fold status / folded value / run-time value vs extracted as_const + reference evaluator, literal and fully hoisted form; "
+                       "parts E / F: statement-level constants and repeatedly executed call sites, literal form vs every hoisted subset, load status + every render's text / ErrorKind; "
                        "part D: collection literals and probe calls, literal and fully hoisted form: the engine's instruction stream of `{{ E }}` (opcodes, counts, constants incl. statically collected keyword maps) and its value vs the extracted model of as_const / compile_call_args / Build* (C04/Coll.v) and its reference semantics")
     chk.cov["samples"] = ["{{ " + src(exprs[i][0]) + " }}" for i in (0, len(exprs) // 3, 2 * len(exprs) // 3, len(exprs) - 1) if exprs] + \
                          ["{{ " + src(lexprs[i][0]) + " }}" for i in (len(lexprs) // 2, len(lexprs) - 1) if lexprs]
@@ -1568,6 +1864,8 @@ def main():
     chk.cov["partA"] = {"expressions": len(exprs), "variants": nvariants, "disagreeing_expressions": len(bad_a)}
     chk.cov["partB"] = {"failing_constant_expressions": len(fails), "template_checks": nb}
     chk.cov["partC"] = {"expressions": len(lexprs), "engine_vs_model_disagreements": len(bad_c), "subexpression_folding_disagreements": len(bad_sub), "explained_by_folder_as_found": old_explains}
+    chk.cov["partE"] = {"templates": len(ecases), "variants": nvar_e, "disagreeing_templates": bad_e}
+    chk.cov["partF"] = {"call_site_templates": len(fcases), "variants": nvar_f, "disagreeing_templates": bad_f}
     chk.cov["partD"] = {"expressions": len(dexprs), "forms": len(dmeta), "engine_vs_model_disagreements": len(bad_d)}
     chk.cov["kernel_crosscheck"] = {"cases": len(small), "agree": kern_ok}
     chk.cov["printer_selftest"] = {"expressions": len(exprs) + 2 * len(lexprs) + len(dmeta), "parser_ast_differs": len(printer_bad)}
